@@ -104,7 +104,7 @@ pub fn run(args: &Args) -> Option<Report> {
     let max_dev = args.opt_u("dev", max_dev as u64) as u32;
     let cfg = Rc::new(cfg);
     crate::seqhooks::install();
-    std::panic::set_hook(Box::new(|_| {}));
+    crate::quiet_panics();
 
     if let Some(path) = &args.replay {
         let v: serde_json::Value = serde_json::from_str(&std::fs::read_to_string(path).unwrap()).unwrap();
